@@ -282,6 +282,47 @@ def _meta_check(scen):
         if b0[keep].max() > m0.max() + 1e-9 or b0[keep].min() < \
                 m0.min() - 1e-9:
             return 'zoomed background leaves the range of the mesh'
+    # each mesh value = the real estimator on the sigma-clipped unmasked
+    # in-image pixels of its box (meshes with too few good pixels excluded)
+    if not scen['idw'] and scen['shift'] == 0.0 and scen['scale'] == 1.0:
+        d3 = data.copy()
+        d3[7, 8] = 40.0                 # outliers for the sigma clip
+        d3[15, 3] = -30.0
+        with warnings.catch_warnings():
+            warnings.simplefilter('ignore')
+            bb = Background2D(d3, scen['box'], mask=mask if scen['mask']
+                              else None, coverage_mask=cov, fill_value=-99.0,
+                              bkg_estimator=est,
+                              bkgrms_estimator=StdBackgroundRMS(),
+                              sigma_clip=SigmaClip(3.0), filter_size=1,
+                              exclude_percentile=30.0)
+            mesh = np.array(bb.background_mesh)
+            rmesh = np.array(bb.background_rms_mesh)
+            bh, bw = scen['box']
+            tot = mask | (cov if cov is not None else False)
+            ncmp = 0
+            for j in range(-(-H // bh)):
+                for i in range(-(-W // bw)):
+                    ys = slice(j * bh, min((j + 1) * bh, H))
+                    xs = slice(i * bw, min((i + 1) * bw, W))
+                    vals = d3[ys, xs][~tot[ys, xs]]
+                    if 100.0 * (bh * bw - vals.size) / (bh * bw) > 30.0 - 1e-9:
+                        continue      # excluded (or at the threshold)
+                    cl = SigmaClip(3.0)(vals, masked=False)
+                    want = type(est)(sigma_clip=None)(cl)
+                    wr = StdBackgroundRMS(sigma_clip=None)(cl)
+                    if scen.get('twin'):
+                        want = want + 0.01
+                    ncmp += 1
+                    if not np.isclose(mesh[j, i], want, rtol=1e-10):
+                        return (f'background_mesh[{j},{i}] = {mesh[j, i]} '
+                                f'but the estimator on the clipped pixels of '
+                                f'that box gives {want}')
+                    if not np.isclose(rmesh[j, i], wr, rtol=1e-10):
+                        return (f'background_rms_mesh[{j},{i}] = '
+                                f'{rmesh[j, i]}, direct {wr}')
+            if ncmp < 4:
+                return 'mesh oracle vacuous'
     c, k = scen['shift'], scen['scale']
     b1, r1, _ = run(data * k + c)
     # float64 round-off of the shifted/scaled data is ~1e-16 * (|c| + |k|*|d|)
@@ -310,8 +351,11 @@ def _run_meta(case):
                     est=case['est'],
                     idw=ctx.flag('idw'), mask=ctx.flag('mask'),
                     cov=ctx.flag('cov'), grad=ctx.choice('grad', [0, 1]),
-                    shift=ctx.choice('shift', [0.0, 1e3, 1e7]),
+                    shift=ctx.choice('shift', [0.0, 1e3, 1e7]
+                                     if not case.get('twin') else [0.0]),
                     scale=ctx.choice('scale', [1.0, 3.0, 1e-10, 1e13]))
+        if case.get('twin'):
+            scen['twin'] = True
         ctx.stats.obligations += 1
         cnt['n'] += 1
         msg = _meta_check(scen)
@@ -355,6 +399,8 @@ def cases(tier, seed):
         'median', 'mean', 'mmm', 'sext', 'biweight']
     for e in ests:
         cs.append(dict(kind='meta', name=f'bkg-real-{e}', est=e))
+    cs.append(dict(kind='meta', name='bkg-real-mesh-twin', est='mmm',
+                   twin=True))
     if tier == 'thorough':
         for shape, box in [((5, 5), (2, 2)), ((5, 4), (2, 3)),
                            ((6, 5), (3, 2)), ((5, 6), (5, 6))]:
